@@ -70,7 +70,9 @@ func (e *Executor) setPlanner(p *Planner, schema *graphql.Schema) {
 	e.syncer.planner = p
 
 	introspectionClient := NewIntrospectionClient(schema)
+	vh("executors.write.begin")
 	e.Executors[IntrospectionClientName] = introspectionClient
+	vh("executors.write.end")
 }
 
 func fetchSchema(ctx context.Context, e ExecutorClient, metadata interface{}) (*QueryResponse, error) {
@@ -139,6 +141,7 @@ func (e *Executor) poll(ctx context.Context) error {
 
 func (e *Executor) runOnService(ctx context.Context, isRootPlan bool, service string, typName string, keys []interface{}, kind string, selectionSet *graphql.SelectionSet, metadata interface{}, planner *Planner) ([]interface{}, interface{}, error) {
 	// Execute query on specified service
+	vh("executors.read", service)
 	executorClient, ok := e.Executors[service]
 	if !ok {
 		return nil, nil, oops.Errorf("service %s not recognized", service)
